@@ -132,6 +132,9 @@ func (u *Unit) declFun(name, sig string) {
 // comp returns the current term for heap component c in heap h, declaring the
 // initial version on first use.
 func (u *Unit) comp(h Heap, c, sort string) string {
+	if h == nil {
+		panic(specError{"heap access (" + c + ") inside an opaque predicate body"})
+	}
 	if v, ok := h[c]; ok {
 		return v
 	}
@@ -267,4 +270,24 @@ func sortedKeys(m map[string]bool) []string {
 	}
 	sort.Strings(ks)
 	return ks
+}
+
+// propDeps: a property's proof may rely on clauses tagged with the properties it builds on.
+var propDeps = map[string][]string{
+	"C03": {"C02"},
+	"C12": {"C02", "C03"},
+}
+
+// active reports whether a clause with the given property tags takes part in
+// the proof of the property this unit is generated for.
+func (u *Unit) active(props []string) bool {
+	if len(props) == 0 || u.prop == "" {
+		return true
+	}
+	for _, p := range props {
+		if p == u.prop || contains(propDeps[u.prop], p) {
+			return true
+		}
+	}
+	return false
 }
